@@ -11,9 +11,6 @@ open H2V H2V.Model H2V.Model.Conn H2V.Lemmas.ConnCountsP
 open H2V.Lemmas.ConnResetP (Op run)
 open H2V.Lemmas.ConnCtlP (view)
 
-/-- no residual promise about the states -/
-abbrev RT : Streams → Prop := fun _ => True
-
 /-- what the connection layer guarantees at a call is what the stream-layer theorem asks for (no handle involved) -/
 theorem connP'_pre {s : Streams} {T : List Nat} {op : Op} (h : ConnP' s op) (hnw : usesWriter op = false) :
     opPre5 s T op ∧ opKey3 op = none ∧ (∀ H, opHandles3 s H op = H) ∧ (∀ H, opResp s H T op = T) := by
@@ -39,8 +36,8 @@ theorem connP'_pre {s : Streams} {T : List Nat} {op : Op} (h : ConnP' s op) (hnw
   case cloneHandle => exact ⟨⟨fun _ => trivial, trivial, trivial, trivial⟩, rfl, fun _ => rfl, fun _ => rfl⟩
 
 /-- **a history of the connection layer is a history of the final stream-layer relation** -/
-theorem WReach.ofHistW {s0 s : Streams} {w0 w : Writer} {H T : List Nat} (h0 : WReach RT s0 w0 H T)
-    (h : HistWX ConnP' FuelMsg s0 w0 s w) : WReach RT s w H T := by
+theorem WReach.ofHistW {A : Op → Prop} (hA : ∀ s o, ConnP' s o → A o) {s0 s : Streams} {w0 w : Writer} {H T : List Nat}
+    (h0 : WReach A RT s0 w0 H T) (h : HistWX ConnP' FuelMsg s0 w0 s w) : WReach A RT s w H T := by
   induction h with
   | refl => exact h0
   | @op t w o _ hp hu ih =>
@@ -50,10 +47,10 @@ theorem WReach.ofHistW {s0 s : Streams} {w0 w : Writer} {H T : List Nat} (h0 : W
     · have hc : ConnP' t o := by
         cases o <;> first | exact hp | exact absurd ⟨_, rfl⟩ hm
       obtain ⟨hpre, hk, hH, hT⟩ := connP'_pre (T := T) hc hu
-      have := WReach.op o ih hu (fun m e => hm ⟨m, e⟩) hpre (by intro k hk'; rw [hk] at hk'; cases hk') trivial
+      have := WReach.op o ih hu (fun m e => hm ⟨m, e⟩) hpre (by intro k hk'; rw [hk] at hk'; cases hk') (hA _ _ hc)
       rw [hH, hT] at this; exact this
   | pollComplete f io t _ _ ih => exact .pollComplete f io t ih trivial
-  | pollSendPendingRefusal f io t _ _ ih => exact .pollSendPendingRefusal f io t ih trivial
+  | pollSendPendingRefusal f io t _ _ ih => exact .pollSendPendingRefusal f io t ih
   | writer _ hw ih => exact .writer ih hw
 
 -- ===================================================================== the calls of the application
@@ -108,52 +105,86 @@ open H2V.Lemmas.ConnRecvP (COp) in
     (`Conn.init`, ENABLE_PUSH = 0) or server (`Conn.initServer`) connection; every non-handle operation of ConnRecvP's `COp`
     (`poll`, the client's `poll`, `set_target_window_size`, graceful / abrupt shutdown, the PING handle …) except
     `set_initial_window_size`; every handle call of the application on the stream layer (`isHandleOp`; preconditions
-    `opPre5`, handle discipline `H`, response futures `T`); the environment (octets arriving on / taken by the transport, the
-    waker of the polling task). -/
-inductive CReach : Conn → List Nat → List Nat → Prop
-  | client (g : Conn.Cfg) : CfgOK g → CwsOK g → g.iws = none → g.push = some 0 → g.firstId % 2 = 1 → CReach (Conn.init g) [] []
-  | server (g : Conn.Cfg) (ecp : Bool) (pf : Bytes) : CfgOK g → CwsOK g → g.iws = none → CReach (Conn.initServer g ecp pf) [] []
-  | cop {c : Conn} {H T : List Nat} (op : COp) : CReach c H T → (∀ o, op ≠ .handle o) → (∀ n, op ≠ .setInitialWindowSize n) →
-      (∀ size, op = .setTargetWindowSize size → size ≤ 2147483647) → CReach (op.apply c) H T
-  | handle {c : Conn} {H T : List Nat} (op : Op) : CReach c H T → isHandleOp op = true → opPre5 c.streams T op →
+    `opPre5`, handle discipline `H`, response futures `T`; `A`: a restriction on the calls, e.g. `NoPushReq`); the
+    environment (octets arriving on / taken by the transport, the waker of the polling task). -/
+inductive CReach (A : Op → Prop) : Conn → List Nat → List Nat → Prop
+  | client (g : Conn.Cfg) : CfgOK g → CwsOK g → g.iws = none → g.push = some 0 → g.firstId % 2 = 1 → CReach A (Conn.init g) [] []
+  | server (g : Conn.Cfg) (ecp : Bool) (pf : Bytes) : CfgOK g → CwsOK g → g.iws = none → CReach A (Conn.initServer g ecp pf) [] []
+  | cop {c : Conn} {H T : List Nat} (op : COp) : CReach A c H T → (∀ o, op ≠ .handle o) → (∀ n, op ≠ .setInitialWindowSize n) →
+      (∀ size, op = .setTargetWindowSize size → size ≤ 2147483647) → CReach A (op.apply c) H T
+  | handle {c : Conn} {H T : List Nat} (op : Op) : CReach A c H T → isHandleOp op = true → A op → opPre5 c.streams T op →
       (∀ k, opKey3 op = some k → k ∈ H) →
-      CReach { c with streams := op.apply c.streams } (opHandles3 c.streams H op) (opResp c.streams H T op)
-  | env {c : Conn} {H T : List Nat} (io : Tio) (cx : String) : CReach c H T →
-      CReach { c with codec := { c.codec with io := io }, cx := cx } H T
+      CReach A { c with streams := op.apply c.streams } (opHandles3 c.streams H op) (opResp c.streams H T op)
+  | env {c : Conn} {H T : List Nat} (io : Tio) (cx : String) : CReach A c H T →
+      CReach A { c with codec := { c.codec with io := io }, cx := cx } H T
+  /-- the application drops the `Connection` (`Drop for Connection`: `streams.recv_eof(true)`); the handles live on -/
+  | dropConn {c : Conn} {H T : List Nat} : CReach A c H T → A (.recvEof true) →
+      CReach A { c with streams := c.streams.recvEof true } H T
+  /-- the transport wakes tasks (the model keeps a log of wake-ups in `streams.wakes`) -/
+  | wake {c : Conn} {H T : List Nat} (tags : List String) : CReach A c H T → A (.wake tags) →
+      CReach A { c with streams := c.streams.wake tags } H T
 
 /-- the connection invariant, and the stream layer + writer are in a `WReach` state -/
-theorem creach_wreach {c : Conn} {H T : List Nat} (h : CReach c H T) :
-    ConnOK c ∧ IwsInv c ∧ WReach RT c.streams c.codec.w H T := by
+theorem creach_wreach {A : Op → Prop} (hA : ∀ s o, ConnP' s o → A o) {c : Conn} {H T : List Nat} (h : CReach A c H T) :
+    ConnOK c ∧ IwsInv c ∧ WReach A RT c.streams c.codec.w H T := by
   induction h with
   | client g hg hc hi hp hf =>
     have hok := init_ok' g hg hi
-    exact ⟨hok.1, hok.2, WReach.ofHistW (.init (clientStreams0_init2 g hf) (clientStreams0_nopush g hp) rfl rfl trivial)
+    exact ⟨hok.1, hok.2, WReach.ofHistW hA (.init (clientStreams0_init2 g hf) (clientStreams0_nopush g hp) rfl rfl)
       (init_hist' g hc).toX'⟩
   | server g ecp pf hg hc hi =>
     have hok := initServer_ok' g ecp pf hg hi
-    exact ⟨hok.1, hok.2, WReach.ofHistW (.init (serverStreams0_init2 g ecp) (.inl rfl) rfl rfl trivial)
+    exact ⟨hok.1, hok.2, WReach.ofHistW hA (.init (serverStreams0_init2 g ecp) (.inl rfl) rfl rfl)
       (initServer_hist' g ecp pf hc).toX'⟩
   | cop op _ hop hs hv ih =>
     have st := cop_step' ih.1 ih.2.1 op hop hs hv
-    exact ⟨st.ok, st.iws, WReach.ofHistW ih.2.2 st.hist⟩
-  | @handle c H T op _ hh hpre hin ih =>
+    exact ⟨st.ok, st.iws, WReach.ofHistW hA ih.2.2 st.hist⟩
+  | @handle c H T op _ hh hAop hpre hin ih =>
     have hv := view_handle c.streams op hh
     refine ⟨ConnOK.handle ih.1 (op.apply c.streams) c.codec c.cx (by rw [hv]) (by rw [hv]) (by rw [hv]; exact fun h => h) rfl,
       IwsInv.congr ih.2.1 rfl, ?_⟩
-    exact .op op ih.2.2 (handle_noWriter hh).1 (handle_noWriter hh).2 hpre hin trivial
+    exact .op op ih.2.2 (handle_noWriter hh).1 (handle_noWriter hh).2 hpre hin hAop
   | @env c H T io cx _ ih =>
     exact ⟨ConnOK.handle ih.1 c.streams { c.codec with io := io } cx rfl rfl (fun h => h) rfl, IwsInv.congr ih.2.1 rfl, ih.2.2⟩
+  | @dropConn c H T _ hAop ih =>
+    have hv := ConnCtlP.view_recvEof c.streams true
+    refine ⟨ConnOK.handle ih.1 (c.streams.recvEof true) c.codec c.cx (by rw [hv]) (by rw [hv]) (by rw [hv]; intro _; rfl) rfl,
+      IwsInv.congr ih.2.1 rfl, ?_⟩
+    exact WReach.op (.recvEof true) ih.2.2 rfl (by intro m e; cases e) ⟨fun _ => trivial, trivial, trivial, trivial⟩
+      (by intro k hk; cases hk) hAop
+  | @wake c H T tags _ hAop ih =>
+    refine ⟨ConnOK.handle ih.1 (c.streams.wake tags) c.codec c.cx rfl rfl (fun h => h) rfl, IwsInv.congr ih.2.1 rfl, ?_⟩
+    exact WReach.op (.wake tags) ih.2.2 rfl (by intro m e; cases e) ⟨fun _ => trivial, trivial, trivial, trivial⟩
+      (by intro k hk; cases hk) hAop
 
-/-- **No endpoint panic in any reachable connection** (modulo `OH`: `P`): in every reachable state of a connection either
-    nothing has panicked — neither one of the connection layer's own asserts nor a site of the stream layer — and the
-    invariants hold, or the recorded message is one of the model's out-of-fuel markers. -/
-theorem creach_good {Q : Streams → Prop} (P : Plug RT Q) {c : Conn} {H T : List Nat} (h : CReach c H T) (he : ErrOK c.streams) :
+theorem connP'_allOps (s : Streams) (o : Op) (_ : ConnP' s o) : AllOps o := trivial
+
+/-- the connection layer never calls `push_request` -/
+theorem connP'_noPushReq (s : Streams) (o : Op) (h : ConnP' s o) : NoPushReq o := by
+  intro p v f e; subst e; exact h
+
+/-- generic form -/
+theorem creach_good {A : Op → Prop} {Q : Streams → Prop} (P : Plug A RT Q) (hA : ∀ s o, ConnP' s o → A o) {c : Conn} {H T : List Nat}
+    (h : CReach A c H T) (he : ErrOK c.streams) :
     (c.streams.panicked = none ∧ ConnOK c ∧ GoodW Q c.streams c.codec.w H T) ∨
     ∃ m, c.streams.panicked = some m ∧ FuelAll m := by
-  have hw := creach_wreach h
+  have hw := creach_wreach hA h
   rcases wreach_good P hw.2.2 he with ⟨hn, g⟩ | hf
   · exact .inl ⟨hn, hw.1, g⟩
   · exact .inr hf
+
+/-- **No endpoint panic in any reachable connection** whose application does not call `push_request`: in every reachable
+    state either nothing has panicked — neither one of the connection layer's own asserts nor a site of the stream layer —
+    and the invariants hold, or the recorded message is one of the model's out-of-fuel markers.  NO open lemma, NO residual
+    state hypothesis. -/
+theorem creach_good_final {c : Conn} {H T : List Nat} (h : CReach NoPushReq c H T) (he : ErrOK c.streams) :
+    (c.streams.panicked = none ∧ ConnOK c ∧ GoodW (fun s => OXs s ∧ NoPPQ s) c.streams c.codec.w H T) ∨
+    ∃ m, c.streams.panicked = some m ∧ FuelAll m := creach_good plugFinal connP'_noPushReq h he
+
+/-- with `push_request`: conditional on the ONE open lemma `PcOX` ("`poll_complete` keeps `OXs`") -/
+theorem creach_good_pc (hpc : PcOX) {c : Conn} {H T : List Nat} (h : CReach AllOps c H T) (he : ErrOK c.streams) :
+    (c.streams.panicked = none ∧ ConnOK c ∧ GoodW OXs c.streams c.codec.w H T) ∨
+    ∃ m, c.streams.panicked = some m ∧ FuelAll m := creach_good (plug_of_pc hpc) connP'_allOps h he
 
 -- ===================================================================== witness
 
@@ -163,11 +194,11 @@ def wC1 : Conn := (ConnRecvP.COp.clientPoll 40).apply (Conn.init wCfg)
 def wC2 : Conn := { wC1 with streams := (Op.sendRequest false [] true none).apply wC1.streams }
 def wC3 : Conn := (ConnRecvP.COp.clientPoll 40).apply wC2
 
-theorem wC3_creach : ∃ H T, CReach wC3 H T := by
-  have r0 : CReach (Conn.init wCfg) [] [] :=
+theorem wC3_creach : ∃ H T, CReach NoPushReq wC3 H T := by
+  have r0 : CReach NoPushReq (Conn.init wCfg) [] [] :=
     .client wCfg (by intro m h; cases h) (by intro m h; cases h) rfl rfl rfl
   have r1 := CReach.cop (.clientPoll 40) r0 (by intro o e; cases e) (by intro n e; cases e) (by intro n e; cases e)
-  have r2 := CReach.handle (.sendRequest false [] true none) r1 rfl ⟨fun _ => trivial, trivial, trivial, trivial⟩
+  have r2 := CReach.handle (.sendRequest false [] true none) r1 rfl (by intro p v f e; cases e) ⟨fun _ => trivial, trivial, trivial, trivial⟩
     (by intro k h; cases h)
   exact ⟨_, _, CReach.cop (.clientPoll 40) r2 (by intro o e; cases e) (by intro n e; cases e) (by intro n e; cases e)⟩
 
